@@ -36,6 +36,9 @@ DAMAGE_BYTES: Dict[str, Tuple[str, Optional[bytes]]] = {
     "legacy_number": ("name", b"2"),
     "legacy_number_big": ("name", b"00000000000000000000000000000000000000000000000999"),
     "legacy_name": ("name", b"v2.metadata.json"),
+    "legacy_zero": ("name", b"0"),                      # a LOWER version than the latest, naming a missing file
+    "superscript": ("garbage", "\u00b2".encode()),       # str.isdigit() is true for it, int() rejects it
+    "arabic_digit": ("name", "\u0663".encode()),         # str.isdigit() true, int() == 3: v<that char>.metadata.json, missing
 }
 
 
@@ -66,6 +69,7 @@ class Scenario:
     grace: int = 0
     data_age_ms: int = 0       # > 0: data files are back-dated by this much when written
     orphans: int = 0           # orphan data files + orphan manifests (old) present before the run
+    prebuilt: int = 0          # data files built by the user beforehand (old, unreferenced): data/prebuilt_<k>.parquet, ids 970+k
     damage: Optional[Tuple[str, str]] = None   # (kind in {"list","man"}, how in {"missing","garbage"}) applied to a reachable file
 
     def idx(self, a: str) -> int:
@@ -218,6 +222,14 @@ class Execution:
     def _make_orphans_and_damage(self, path: str, st: Dict[str, Any]) -> None:
         """Old orphan files (copies of real ones under fresh names) and optional damage to a reachable file."""
         old = (self.env.clock.peek_ms() - 10_000_000) / 1000.0
+        for k in range(1, self.scn.prebuilt + 1):
+            import pyarrow as pa
+            import pyarrow.parquet as pq
+            arrow_schema = self.tables_schema()
+            dst = f"data/prebuilt_{k}.parquet"
+            pq.write_table(pa.table({"id": [970 + k], "k": [0]}, schema=arrow_schema), os.path.join(path, dst))
+            os.utime(os.path.join(path, dst), (old, old))
+            self.env.ids.file[dst] = 970 + k
         if self.scn.orphans and st["data"] and st["manifests"]:
             for k in range(self.scn.orphans):
                 for src, dst, fid in ((st["data"][0], f"data/orphan_{k}.parquet", 980 + k),
@@ -234,6 +246,12 @@ class Execution:
             else:
                 with open(full, "wb") as f:
                     f.write(b"\x00garbage-not-avro-not-json")
+
+    def tables_schema(self) -> Any:
+        from datashard import Table
+
+        t0 = Table(self.path, create_if_not_exists=False)
+        return t0.file_manager.data_file_manager.create_arrow_schema(schema())
 
     def _assign_init_ids(self, st: Dict[str, Any]) -> None:
         ids = self.env.ids
@@ -341,6 +359,13 @@ class Execution:
                         for k in range(1, op.get("n", 1) + 1):
                             tx.append_data([{"id": self.scn.idx(spec.name) * 100 + i * 10 + k, "k": 0}], schema())
                         tx.commit()
+                    elif t == "append" and op.get("pre"):
+                        from datashard.data_structures import DataFile, FileFormat
+
+                        rel = f"data/prebuilt_{int(op['pre'])}.parquet"
+                        size = os.path.getsize(os.path.join(self.path, rel)) if os.path.exists(os.path.join(self.path, rel)) else 1
+                        table.append_data([DataFile(file_path="/" + rel, file_format=FileFormat.PARQUET, partition_values={},
+                                                    record_count=1, file_size_in_bytes=size)])
                     elif t == "append":
                         n = op.get("n", 1)
                         if n == 1 and op.get("style", "records") == "records":
@@ -541,7 +566,9 @@ def spec_prog(scn: Scenario) -> Dict[str, List[Dict[str, Any]]]:
         ops = []
         for i, op in enumerate(a.prog, start=1):
             t = op["t"]
-            if t == "append":
+            if t == "append" and op.get("pre"):
+                ops.append({"t": "append", "add": [970 + int(op["pre"])], "pre": True})
+            elif t == "append":
                 o = {"t": "append", "add": [scn.idx(a.name) * 100 + i * 10 + k for k in range(1, op.get("n", 1) + 1)]}
                 if op.get("style") == "explicit":
                     o["style"] = "explicit"
@@ -591,7 +618,7 @@ def scn_constants(scn: Scenario) -> Dict[str, Any]:
     return {"Actors": R("<- ScnActors"), "Role": R("<- ScnRole"), "Idx": R("<- ScnIdx"), "Handle": R("<- ScnHandle"),
             "Prog": R("<- ScnProg"), "Backend": scn.backend, "LockKind": scn.lock_kind, "ClockMode": scn.clock_mode,
             "MaxClock": 1000000, "MaxAttempts": scn.max_attempts, "InitSnaps": scn.init_snaps, "InitTable": scn.init_table, "FixOrphanMeta": scn.fix_orphan,
-            "FixStamp": scn.fix_stamp, "FixEtag": scn.fix_etag, "FixGCOrder": scn.fix_gc, "FixGCFail": scn.fix_gcfail, "FixInterrupt": scn.fix_interrupt, "FaultKinds": set(), "DamageKinds": set(), "CrashOK": False, "FaultBudget": 0, "Grace": scn.grace, "OldFiles": False, "Lease": 60000, "MarkerTimeout": 86400000}
+            "FixStamp": scn.fix_stamp, "FixEtag": scn.fix_etag, "FixGCOrder": scn.fix_gc, "FixGCFail": scn.fix_gcfail, "FixInterrupt": scn.fix_interrupt, "FaultKinds": set(), "DamageKinds": set(), "CrashOK": False, "FaultBudget": 0, "Grace": scn.grace, "OldFiles": False, "PreFiles": {970 + k for k in range(1, scn.prebuilt + 1)}, "Lease": 60000, "MarkerTimeout": 86400000}
 
 
 L1_INVARIANTS = ["TypeOK", "Serializable", "LinearChain", "AckedOnce", "NoDoubleCommit", "ReachablePresent",
